@@ -261,6 +261,71 @@ def job_builtin():
         ex.call(st, c2[0], [zobj], after_ctor)
     return ex.execute(h)
 
+def job_gtt(abbr_text, abis=(0, 4)):
+    """GetTransitionType(offset, is_dst, abbr) on the real IR: on success *index designates a type with exactly that offset, flag
+    and abbreviation TEXT (an existing one is reused only if all three agree; otherwise a type - and, if needed, the text - is appended);
+    existing types are left untouched.  Table: T types with symbolic offsets / flags / abbreviation indexes over the texts ABC, DEF."""
+    mod = tz.module()
+    ex = symex.Executor(mod, tlimit_ms=120000)
+    ex.max_unwind = 40
+    tz.install_contracts(ex)
+    strmodel.install(ex, mod)
+    T = len(abis)
+    GTT = build.find_func(mod, r"TimeZoneInfo::GetTransitionType\(")
+    CTOR = build.find_funcs(mod, r"TimeZoneInfo::TimeZoneInfo\(\)")
+    texts = b"ABC\0DEF\0"
+    if isinstance(abbr_text, str): abbr_text = abbr_text.encode("latin1")
+    def h(ex, st):
+        zobj = ex.new_obj(st, 192, "TimeZoneInfo")
+        off = ex.input("want_offset", 64, -86399, 86399); isdst = ex.input("want_dst", 8, 0, 1)
+        def after_ctor(st, rv):
+            # transition_types_: T entries in a buffer with room for two more (Load reserves typecnt + 2)
+            tys = ex.new_obj(st, (T + 2) * 48, "transition_types_[]")
+            W = lambda o, n, v: ex.store_raw(st, Ptr(zobj.obj, o), n, v)
+            W(32, 8, Ptr(tys.obj, 0)); W(40, 8, Ptr(tys.obj, T * 48)); W(48, 8, Ptr(tys.obj, (T + 2) * 48))
+            offs = []; dsts = []; abis_ = list(abis)
+            for t in range(T):
+                o = ex.input("ty%d_off" % t, 32, -86399, 86399); d = ex.input("ty%d_dst" % t, 8, 0, 1); ai = abis_[t]
+                offs.append(o); dsts.append(d)
+                b = t * 48
+                ex.store_raw(st, Ptr(tys.obj, b), 4, o); ex.store_raw(st, Ptr(tys.obj, b + 40), 1, d); ex.store_raw(st, Ptr(tys.obj, b + 41), 1, ai)
+                for fo in (8, 16, 24, 32): ex.store_raw(st, Ptr(tys.obj, b + fo), 8, 0)
+            buf = ex.new_obj(st, 64, "abbreviations_ buffer")
+            for i, c in enumerate(texts): ex.store_raw(st, Ptr(buf.obj, i), 1, c)
+            strmodel._set(ex, st, Ptr(zobj.obj, 64), buf, len(texts))
+            ab = ex.new_obj(st, 32, "abbr"); strmodel._init(ex, st, ab)
+            tb = ex.new_obj(st, len(abbr_text) + 1, "abbr text")
+            for i, c in enumerate(abbr_text + b"\0"): ex.store_raw(st, Ptr(tb.obj, i), 1, c)
+            strmodel._set(ex, st, ab, tb, len(abbr_text))
+            idx = ex.new_obj(st, 1, "index"); ex.store_raw(st, idx, 1, ex.fresh("prefill", 8))
+            def k(st, rv):
+                ok = (not smt.is_sym(rv)) and bool(rv)
+                ex.prove(st, ok, "GetTransitionType succeeds while fewer than 256 types / abbreviation bytes exist")
+                if not ok: return
+                i = smt.to_u(ex.load(st, idx, I8), 8)
+                yb = ex.load(st, Ptr(zobj.obj, 32), PtrTy(I8)); ye = ex.load(st, Ptr(zobj.obj, 40), PtrTy(I8))
+                n_after = (ye.off - yb.off) // 48
+                i = ex.concretize(st, i, "returned index")
+                ex.prove(st, 0 <= i < n_after, "the returned index is a valid type index")
+                if not (0 <= i < n_after): return
+                TY = lambda t, o, ty: ex.load(st, Ptr(yb.obj, yb.off + 48 * t + o), ty)
+                ex.prove(st, and_(eq(TY(i, 0, I32), off), eq(ne(TY(i, 40, I8), 0), ne(isdst, 0))), "the designated type has exactly the requested offset and DST flag")
+                ai = ex.concretize(st, smt.to_u(TY(i, 41, I8), 8), "abbr_index of the designated type")
+                data = strmodel._data(ex, st, Ptr(zobj.obj, 64)); size = ex.load(st, Ptr(zobj.obj, 72), I64)
+                size = ex.concretize(st, size, "abbreviations_ size")
+                ex.prove(st, ai + len(abbr_text) < size, "the designated abbreviation lies inside abbreviations_ with its terminator")
+                if ai + len(abbr_text) < size:
+                    got = [ex.load(st, Ptr(data.obj, data.off + ai + j), I8) for j in range(len(abbr_text) + 1)]
+                    ex.prove(st, and_(*[eq(smt.to_u(g, 8), c) for g, c in zip(got, abbr_text + b"\0")]), "the designated type's abbreviation text is exactly the requested one (NUL-terminated)")
+                # existing entries are untouched, and an existing exact match is reused
+                for t in range(T):
+                    ex.prove(st, and_(eq(TY(t, 0, I32), offs[t]), eq(TY(t, 40, I8), dsts[t]), eq(smt.to_u(TY(t, 41, I8), 8), abis_[t])), "existing types are not modified")
+                ex.prove(st, n_after <= T + 1, "at most one type is appended")
+            ex.call(st, GTT, [zobj, off, ne(isdst, 0), ab, idx], k)
+        c2 = [c for c in CTOR if "C2" in c] or CTOR
+        ex.call(st, c2[0], [zobj], after_ctor)
+    return ex.execute(h)
+
 # ---------------------------------------------------------------------------------------------- replay
 def image_from_model(model, total):
     return bytes((model.get("b%d" % i, 0)) & 255 for i in range(total))
@@ -313,6 +378,7 @@ def _replay_exe():
     return out
 
 def replay(case):
+    if case.get("footer_panel"): return tz_replay.check_footer_panel()
     if "builtin" in case: return native_load_check(b"", builtin=case["builtin"])
     return native_load_check(bytes(case["image"]), t=case.get("t"), cs=case.get("cs"))
 
@@ -331,6 +397,7 @@ def run(tier):
     ft = [(1, 2, 2)] if tier == "quick" else [(1, 2, 2), (2, 2, 2)]
     jobs += [("Load(lean,fixed times):v%d,timecnt=%d,typecnt=%d" % s_, job_load, {"version": s_[0], "timecnt": s_[1], "typecnt": s_[2], "charcnt_max": 1, "lean": True, "queries": False, "fixed_times": True}) for s_ in ft]
     jobs.append(("Builtin:ResetToBuiltinUTC(every offset within +-24h) => WF", job_builtin, {}))
+    jobs += [("GetTransitionType:text=%s,existing abbr indexes=%s" % (t_, list(a_)), job_gtt, {"abbr_text": t_, "abis": list(a_)}) for t_ in ("ABC", "DEF", "XYZ") for a_ in ((0, 4), (4, 4))]
     jobs.append(("Load:v1,timecnt=1,typecnt=256(8-bit default-type search)", job_load, {"version": 1, "timecnt": 1, "typecnt": 256, "charcnt_max": 1, "big_types": True}))
     # the footer: every NUL-free byte string up to FL bytes through the real ParsePosixSpec (E2 units of C16: bounds, NULL and
     # overflow obligations of each sub-parser with its lower levels replaced by their contracts)
@@ -344,6 +411,12 @@ def run(tier):
     for r, j in zip(results, jobs):
         for fobj in r["failed"]:
             m = fobj["model"]
+            if r["name"].startswith("GetTransitionType:"):
+                # the table is abstract: confirm on the native panel of footers (rule types must be found / added with the right offset, flag, name)
+                w = tz_replay.check_footer_panel()
+                if w: rep.violation("gtt:%s" % fobj["desc"][:60], w + "  [%s: %s]" % (r["name"], fobj["desc"]), {"footer_panel": True})
+                else: rep.spurious.append({"job": r["name"], "obligation": fobj["desc"], "model": m})
+                continue
             if r["name"].startswith("Builtin:"):
                 w = native_load_check(b"", builtin=m.get("offset", 0))
                 if w: rep.violation("builtin:%s" % fobj["desc"][:60], w.replace("image", "image (built-in fixed-offset zone, offset %d)" % m.get("offset", 0)) + "  [%s: %s]" % (r["name"], fobj["desc"]), {"builtin": m.get("offset", 0)})
